@@ -73,9 +73,12 @@ var (
 
 func init() {
 	r := rand.New(rand.NewSource(0x5eed))
-	Payment = &payment.App{ID: simchannel.NewRandomAppID(r)}
-	Payment2 = &payment.App{ID: simchannel.NewRandomAppID(r)}
-	DApp = &DataApp{id: simchannel.NewRandomAppID(r)}
+	appID := func() channel.AppID {
+		return simchannel.AppID{Address: Account(r).Address().(*simwallet.Address)}
+	}
+	Payment = &payment.App{ID: appID()}
+	Payment2 = &payment.App{ID: appID()}
+	DApp = &DataApp{id: appID()}
 	channel.RegisterApp(Payment)
 	channel.RegisterApp(Payment2)
 	channel.RegisterApp(DApp)
@@ -130,9 +133,6 @@ func DataFor(r *rand.Rand, app channel.App) channel.Data {
 // ---------------------------------------------------------------------------------------------
 // Accounts and addresses
 
-// Account returns a fresh signing account.
-func Account(r *rand.Rand) *simwallet.Account { return simwallet.NewRandomAccount(r) }
-
 // AccMap wraps an account for the multi-backend API.
 func AccMap(a wallet.Account) map[wallet.BackendID]wallet.Account {
 	return map[wallet.BackendID]wallet.Account{B: a}
@@ -145,7 +145,7 @@ func AddrMap(a wallet.Address) map[wallet.BackendID]wallet.Address {
 
 // WalletAddr returns a random participant address map.
 func WalletAddr(r *rand.Rand) map[wallet.BackendID]wallet.Address {
-	return AddrMap(simwallet.NewRandomAddress(r))
+	return AddrMap(Account(r).Address())
 }
 
 // WireAddr returns a random wire address map.
